@@ -54,11 +54,17 @@ def gen_op(rng, w, first, hardlinks):
         # cp -p: same path on another disk (path match) or same base name elsewhere (name match)
         q = p if rng.random() < 0.6 else rng.choice(DIRS) + p.rsplit('/', 1)[-1]
         return ['copy', d, p, 'd%d' % rng.randint(1, nd), q]
-    if k < 0.85:
+    if k < 0.83:
         return ['touch', d, ex()]
-    if k < 0.90:
+    if k < 0.845:
+        return ['resize_keepm', d, ex(), rng.choice([1, 700, 1024, 3000])]
+    if k < 0.86:
+        return ['restore', d, ex()]
+    if k < 0.875:
+        return ['samestamp', d, ex(), 'd%d' % rng.randint(1, nd), rng.choice(DIRS) + rng.choice(['zz', 'yy.q'])]
+    if k < 0.91:
         return ['symlink', d, rng.choice(DIRS) + rng.choice(['a', 'ln', 'lm']), rng.choice(['a', '../b', 'nowhere', 'da'])]
-    if k < 0.93 and hardlinks:
+    if k < 0.935 and hardlinks:
         return ['hardlink', d, ex(), rpath(rng)]
     if k < 0.96:
         return ['mkdir', d, rng.choice(['da/in', 'db', 'em', 'a', 'da/ee/f'])]
@@ -313,6 +319,8 @@ class Hist:
             partial = (not last) and self.rng.random() < 0.15
             invisible = (not partial) and self.rng.random() < 0.2
             if not self.step(ops, partial=partial, invisible=invisible):
+                break
+            if self.model and c11_model.flush_drift(self):      # the real run satisfied every oracle: a disagreement is MODEL-DRIFT
                 break
             if len(self.chk.violations) > 4:
                 break
